@@ -359,7 +359,7 @@ def _snapshot_classes() -> None:
                     _note_defaults(fn)
                 if attr.startswith("__"):
                     continue
-                if isinstance(val, (list, dict, set, bytearray)):
+                if isinstance(val, (list, dict, set, bytearray, OrderedSet)):
                     _class_state.append((cls, attr, val, copy.copy(val)))
         for fname, fn in sorted(vars(mod).items(), key=lambda kv: kv[0]):
             if callable(fn) and hasattr(fn, "__defaults__") and getattr(fn, "__module__", None) == name:
@@ -372,7 +372,7 @@ _default_state: list = []  # (live mutable default argument, pristine copy): the
 def _note_defaults(fn) -> None:
     vals = list(fn.__defaults__ or ()) + list((fn.__kwdefaults__ or {}).values())
     for v in vals:
-        if isinstance(v, (list, dict, set, bytearray)) and not any(v is x for (x, _p) in _default_state):
+        if isinstance(v, (list, dict, set, bytearray, OrderedSet)) and not any(v is x for (x, _p) in _default_state):
             _default_state.append((v, copy.copy(v)))
 
 
